@@ -1,3 +1,5 @@
+from __future__ import annotations
+
 import typing as t
 
 from dep_logic.specifiers.base import BaseSpecifier
@@ -38,6 +40,11 @@ class EmptySpecifier(BaseSpecifier):
     def __contains__(self, value: str) -> bool:
         return False
 
+    def contains(self, version: t.Any, prereleases: bool | None = None) -> bool:
+        """Same signature as VersionSpecifier.contains(): the empty set is an
+        ordinary result of `&` and `~` on version specifiers."""
+        return False
+
 
 class AnySpecifier(BaseSpecifier):
     def __invert__(self) -> BaseSpecifier:
@@ -75,4 +82,8 @@ class AnySpecifier(BaseSpecifier):
         return True
 
     def __contains__(self, value: str) -> bool:
+        return True
+
+    def contains(self, version: t.Any, prereleases: bool | None = None) -> bool:
+        """Same signature as VersionSpecifier.contains()."""
         return True
